@@ -1698,7 +1698,7 @@ func (s *SelectStatement) ColumnNames() []string {
 
 		switch f := field.Expr.(type) {
 		case *Call:
-			if s.Target == nil && (f.Name == "top" || f.Name == "bottom") {
+			if s.Target == nil && (f.Name == "top" || f.Name == "bottom") && len(f.Args) > 1 {
 				for _, arg := range f.Args[1:] {
 					ref, ok := arg.(*VarRef)
 					if ok {
